@@ -239,3 +239,77 @@ func portRange(i int) *Case {
 	}
 	return c
 }
+
+// taggedExtends: in the later layer the service carries `X: !override …` / `X: !reset …` and also
+// extends a template that defines X itself; the earlier layer sets X too. The tag applies to
+// everything that came before: the template's value and the earlier layer's.
+func taggedExtends(i int) *Case {
+	type tc struct{ early, tmpl, tagged, final string }
+	cases := []tc{
+		{"    ports:\n      - \"8080:80\"\n", "    ports:\n      - \"7070:70\"\n", "    ports: !override\n      - \"9090:90\"\n", "    ports:\n      - \"9090:90\"\n"},
+		{"    environment:\n      MODE: production\n", "    environment:\n      TEMPLATE: \"yes\"\n", "    environment: !reset null\n", ""},
+		{"    cap_add:\n      - NET_ADMIN\n", "    cap_add:\n      - SYS_TIME\n", "    cap_add: !reset []\n", ""},
+		{"    labels:\n      a: \"1\"\n", "    labels:\n      t: \"1\"\n", "    labels: !override\n      k: v\n", "    labels:\n      k: v\n"},
+		{"    dns:\n      - 1.1.1.1\n", "    dns:\n      - 8.8.8.8\n", "    dns: !override\n      - 9.9.9.9\n", "    dns:\n      - 9.9.9.9\n"},
+		{"    volumes:\n      - ./a:/a\n", "    volumes:\n      - ./t:/t\n", "    volumes: !override\n      - ./n:/n\n", "    volumes:\n      - ./n:/n\n"},
+	}
+	k := cases[i%len(cases)]
+	asDocs := (i/len(cases))%2 == 1
+	otherFile := (i/(2*len(cases)))%2 == 1 // the template lives in another file
+	l1 := "services:\n  web:\n    image: nginx\n    hostname: kept\n" + k.early
+	tmplSvc := "  template:\n    image: busybox\n" + k.tmpl
+	l2 := "services:\n" + tmplSvc + "  web:\n    extends:\n      service: template\n" + k.tagged
+	target := "services:\n" + tmplSvc + "  web:\n    image: busybox\n    hostname: kept\n" + k.final
+	extra := map[string]string{}
+	if otherFile {
+		extra["tmpl.yaml"] = "services:\n" + tmplSvc
+		l2 = "services:\n  web:\n    extends:\n      file: tmpl.yaml\n      service: template\n" + k.tagged
+		target = "services:\n  web:\n    image: busybox\n    hostname: kept\n" + k.final
+	}
+	c := &Case{Focus: "tag on a service that extends a template defining the tagged attribute", Parts: 2}
+	c.Target = ld.Case{Files: map[string]string{"compose.yaml": target}, ComposeFiles: []string{"compose.yaml"}}
+	if asDocs {
+		c.Carrier = "documents"
+		c.Split = ld.Case{Files: map[string]string{"compose.yaml": l1 + "---\n" + l2}, ComposeFiles: []string{"compose.yaml"}}
+	} else {
+		c.Carrier = "files"
+		c.Split = ld.Case{Files: map[string]string{"compose.yaml": l1, "compose.1.yaml": l2}, ComposeFiles: []string{"compose.yaml", "compose.1.yaml"}}
+	}
+	for f, v := range extra {
+		c.Split.Files[f] = v
+	}
+	return c
+}
+
+// grantKey: a config / secret granted to the service by two layers for the same target, one side
+// relying on the default target (`/<source>` for a config, `/run/secrets/<source>` for a secret),
+// the other writing it out: one grant remains, the later layer's.
+func grantKey(i int) *Case {
+	type gc struct{ kind, l1, l2, final string }
+	cases := []gc{
+		{"configs", "      - app_conf\n", "      - {source: app_conf, target: /app_conf, mode: 0440}\n", "      - {source: app_conf, target: /app_conf, mode: 0440}\n"},
+		{"configs", "      - {source: app_conf, target: /app_conf, uid: \"103\"}\n", "      - app_conf\n", "      - app_conf\n"},
+		{"configs", "      - app_conf\n", "      - {source: other_conf, target: /app_conf}\n", "      - {source: other_conf, target: /app_conf}\n"},
+		{"secrets", "      - app_conf\n", "      - {source: app_conf, target: /run/secrets/app_conf, mode: 0400}\n", "      - {source: app_conf, target: /run/secrets/app_conf, mode: 0400}\n"},
+		{"secrets", "      - {source: other_conf, target: /run/secrets/app_conf}\n", "      - app_conf\n", "      - app_conf\n"},
+	}
+	k := cases[i%len(cases)]
+	asDocs := (i/len(cases))%2 == 1
+	top := "configs:\n  app_conf: {content: a}\n  other_conf: {content: o}\n"
+	if k.kind == "secrets" {
+		top = "secrets:\n  app_conf: {environment: A}\n  other_conf: {environment: O}\n"
+	}
+	l1 := "services:\n  s:\n    image: img\n    " + k.kind + ":\n" + k.l1 + top
+	l2 := "services:\n  s:\n    " + k.kind + ":\n" + k.l2
+	target := "services:\n  s:\n    image: img\n    " + k.kind + ":\n" + k.final + top
+	c := &Case{Focus: "services." + k.kind + " (same target, default on one side and written out on the other)", Parts: 2}
+	c.Target = ld.Case{Files: map[string]string{"compose.yaml": target}, ComposeFiles: []string{"compose.yaml"}}
+	if asDocs {
+		c.Carrier = "documents"
+		c.Split = ld.Case{Files: map[string]string{"compose.yaml": l1 + "---\n" + l2}, ComposeFiles: []string{"compose.yaml"}}
+	} else {
+		c.Carrier = "files"
+		c.Split = ld.Case{Files: map[string]string{"compose.yaml": l1, "compose.1.yaml": l2}, ComposeFiles: []string{"compose.yaml", "compose.1.yaml"}}
+	}
+	return c
+}
